@@ -37,23 +37,32 @@ def shards(tier, seed):
     common.quiet()
     out = [("cffi", b) for b in cseam.plan_batches(types_for(tier, "cffi"), 24)]
     out += [("asan", b) for b in cseam.plan_batches(types_for(tier, "asan"), 16)]
+    # one batch per float kind built with the compile / link lines the library chooses when the caller gives none
+    fl = [t for t in types_for(tier, "cffi") if "Float32" in xt.show(t) or "f32" in xt.show(t)][:8] + [t for t in types_for(tier, "cffi") if "Float64" in xt.show(t) or "f64" in xt.show(t)][:8]
+    out += [("cffi-defaults", b) for b in cseam.plan_batches(fl, 16)]
     return out[seed % len(out):] + out[: seed % len(out)]
+
+
+# bit patterns of the subnormals of set_values (positions 3, 4), written out: once a module built with fast-math link
+# options is loaded the process flushes subnormals in conversions AND comparisons, so values cannot be trusted to tell
+SUB_BITS = {"f32": [bytes.fromhex("01000000"), bytes.fromhex("ffff7f80")], "f64": [bytes.fromhex("0100000000000000"), bytes.fromhex("ffffffffffff0f80")]}
 
 
 def set_values(lt, cur, n):
     kind = lt[1]
     if kind[0] == "f":
         # ... then the two zeros one over the other (equal as values, different bits: "exactly the value passed")
-        c = [float(n % 90) + 2.75, -3.0e38 if kind == "f32" else -1.7e308, float("inf"), 0.0, -0.0, 0.0]
+        sub = [1.401298464324817e-45, -1.1754942106924411e-38] if kind == "f32" else [5e-324, -2.225073858507201e-308]  # smallest / largest subnormal
+        c = [float(n % 90) + 2.75, -3.0e38 if kind == "f32" else -1.7e308, float("inf")] + sub + [0.0, -0.0, 0.0]
     else:
         lo, hi = xt.int_range(kind)
         c = [(n * 7 + 3) % hi + 1, lo, hi]
     return c
 
 
-def route_cffi(types, res, seed):
+def route_cffi(types, res, seed, defaults=False):
     try:
-        ctx, kernels = cseam.build_module(types)
+        ctx, kernels = cseam.build_module(types, extra_compile_args="default") if defaults else cseam.build_module(types)
     except Exception as e:
         res.skipped["api-does-not-build(C02's business):" + type(e).__name__] += len(types)
         return
@@ -82,7 +91,7 @@ def route_cffi(types, res, seed):
             for c in list(cseam.calls_for_object(t, v, obj, actions=("set",))):
                 kw = {"i%d" % k: int(i) for k, i in enumerate(c["idx"])}
                 cur = xt.get_path(mv, c["vpath"])
-                for val in set_values(c["lt"], cur, n):
+                for vi, val in enumerate(set_values(c["lt"], cur, n)):
                     n += 1
                     if n % 4 == 2:
                         # the buffer grows (its storage is replaced) between two calls of the same kernels: anything a
@@ -114,6 +123,15 @@ def route_cffi(types, res, seed):
                             sig.add(k)
                             res.violations.append(common.violation(k[0], k[1], dict(f0, route="cffi"), dict(type=t, type_str=xt.show(t), vmode=vmode, route="cffi", call=c["kern"].c_name, index=list(c["idx"])), repr(e)))
                         continue
+                    if c["lt"][1] in SUB_BITS and vi in (3, 4) and not originals:
+                        res.oracles["subnormal-bits"] += 1
+                        wantb = SUB_BITS[c["lt"][1]][vi - 3]
+                        raw = bytes(buf.to_bytearray(int(c["elem_addr"]), len(wantb)))
+                        if raw != wantb:
+                            k = ("C07.set", "not-exactly-the-value-passed:subnormal")
+                            if k not in sig:
+                                sig.add(k)
+                                res.violations.append(common.violation(k[0], k[1], dict(f0, route="cffi", leaf=c["lt"][1], defaults=defaults), dict(type=t, type_str=xt.show(t), vmode=vmode, route="cffi", call=c["kern"].c_name, index=list(c["idx"]), value=repr(val)), "after %s(%r, value=%s) the element holds %s, the value passed is %s" % (c["kern"].c_name, kw, float(val).hex(), raw.hex(), wantb.hex())))
                     want = xt.pyval(np.dtype(xt.NPDT[c["lt"][1]]).type(val))
                     mv = xt.set_path(mv, c["vpath"], want)
                     try:
@@ -281,8 +299,8 @@ def route_asan(types, res, seed, target="cpu_serial", sanitize=True, label="asan
 
 def run_shard(shard, tier, seed):
     res = common.ShardResult()
-    if shard[0] == "cffi":
-        route_cffi(shard[1], res, seed)
+    if shard[0] in ("cffi", "cffi-defaults"):
+        route_cffi(shard[1], res, seed, defaults=(shard[0] == "cffi-defaults"))
     else:
         route_asan(shard[1], res, seed)
     res.nontrivial = res.states
